@@ -24,7 +24,7 @@ ASSUMPTIONS = [
     "a call the plain function accepts but the wrapper rejects is C06's clause: counted, not judged here",
 ]
 SHARDS = {"quick": 12, "thorough": 14}
-FLOORS = {"quick": {"calls_compared": 6000, "twin_pairs_called": 300, "multi_process_histories": 40, "shelved_calls": 1000, "histories_through_recached_wrappers": 25},
+FLOORS = {"quick": {"calls_compared": 6000, "twin_pairs_called": 300, "multi_process_histories": 40, "shelved_calls": 1000, "histories_through_recached_wrappers": 25, "sessions_with_overlapping_calls_of_one_wrapper": 100},
           "thorough": {"calls_compared": 80000, "twin_pairs_called": 6000, "multi_process_histories": 300, "shelved_calls": 10000, "histories_through_recached_wrappers": 300}}
 
 
@@ -86,6 +86,11 @@ def predicate_key(sig):
 def judge_c02(ctx, funcs, segs, outs, meta):
     seen_fp = {}
     for seg, (res, _) in zip(segs, outs):
+        if res.get("overlap_done"):
+            ctx.count("sessions_with_overlapping_calls_of_one_wrapper")
+        for msg in res.get("overlap_errors", [])[:1]:
+            ctx.violation("wrong-value:overlapping-calls-of-one-wrapper", msg + f"; {meta}", dict(meta, message=msg))
+            return
         for step, rec in zip(seg["steps"], res["steps"]):
             f = funcs[step["f"]]
             if step.get("op") == "clear":
